@@ -327,6 +327,16 @@ def _immutable_literal(node) -> bool:
     return False
 
 
+def _filter_calls_element_method(g: ast.comprehension) -> bool:
+    bound = {n.id for n in ast.walk(g.target) if isinstance(n, ast.Name)}
+    for c in g.ifs:
+        for n in ast.walk(c):
+            if isinstance(n, ast.Call) and isinstance(n.func, ast.Attribute) and isinstance(n.func.value, ast.Name) \
+                    and n.func.value.id in bound:
+                return True
+    return False
+
+
 def _has_yield(fi: FuncInfo) -> bool:
     v = getattr(fi, "_has_yield", None)
     if v is None:
@@ -1636,6 +1646,9 @@ class Engine:
                 s.env.clear()
                 s.env.update(saved)
                 return ({"list": "list", "set": "set", "gen": "tuple"}[kind], tuple(out))
+        if kind == "list" and len(node.generators) == 1 and not node.generators[0].is_async \
+                and _filter_calls_element_method(node.generators[0]):
+            return self._comp_as_loop(node, s, fi, depth, ch, saved)
         for gi, g in enumerate(node.generators):
             it = first_it if gi == 0 and first_it is not None else self._eval(g.iter, s, fi, depth, ch)
             el = ("elem", it, self.site(g.iter, fi), 0)
@@ -1651,6 +1664,50 @@ class Engine:
         s.env.clear()
         s.env.update(saved)
         return ("comp", kind, elt, tuple(gens), self.site(node, fi, s))
+
+    def _comp_as_loop(self, node, s: _State, fi, depth, ch, saved):
+        """[ELT for T in IT if COND] where COND asks the element itself (a method call on T): enumerated like the
+        loop `for T in IT: if COND: out.append(ELT)` - per iteration events and branch decisions, result a list
+        display - so that the work COND does is visible to path rules exactly as in the statement form"""
+        g = node.generators[0]
+        it = self._eval(g.iter, s, fi, depth, ch)
+        elems = self._iter_elems(it)
+        if elems is not None:
+            n = len(elems)
+        else:
+            n = ch.choose(self.policy.unroll + 1)
+        site = self.site(g.iter, fi)
+        outer_iter = s.env.get("$iter")
+        out = []
+        s.loopdepth += 1
+        try:
+            for i in range(n):
+                s.env["$iter"] = (outer_iter or ()) + ((node.lineno, i),)
+                el = elems[i] if elems is not None else ("elem", it, site, i)
+                self._assign(g.target, el, s, fi, depth, ch)
+                keep = True
+                for cnode in g.ifs:
+                    c = self._eval(cnode, s, fi, depth, ch)
+                    tv = self._decide(c, s)
+                    if tv is None:
+                        tv = ch.choose(2) == 0
+                        s.conds.append((c, tv, cnode, fi))
+                        self._learn(c, tv, s)
+                    if not tv:
+                        keep = False
+                        break
+                if keep:
+                    out.append(self._eval(node.elt, s, fi, depth, ch))
+        finally:
+            s.loopdepth -= 1
+            it_now = outer_iter
+            s.env.clear()
+            s.env.update(saved)
+            if it_now:
+                s.env["$iter"] = it_now
+            else:
+                s.env.pop("$iter", None)
+        return ("list", tuple(out))
 
     # calls ----------------------------------------------------------------------
     def _eval_call(self, node: ast.Call, s: _State, fi: FuncInfo, depth, ch):
